@@ -35,8 +35,15 @@ int nondet_int(void); unsigned nondet_uint(void); char nondet_char(void); double
 /* native replay of a CBMC counterexample: nondet_*() return the recorded values in order (file named by E1_REPLAY); a failed
    assertion prints "REPLAY-FAIL: <text>" and the process exits 1 at the end; a false assumption means the recording does not apply */
 #include <stdio.h>
-static FILE *e1_rf; static int e1_failed;
-static const char *e1_next(void) { static char buf[128]; if (!e1_rf) { const char *f = getenv("E1_REPLAY"); e1_rf = f ? fopen(f, "r") : 0; } if (!e1_rf || fscanf(e1_rf, "%127s", buf) != 1) return "0"; return buf; }
+#include <fcntl.h>
+#include <unistd.h>
+static int e1_failed;
+/* the recorded values are read with open/read only: several harnesses replace stdio functions (fgets, fscanf, ...) with file models */
+static const char *e1_next(void) { static char buf[128]; static char *txt; static long pos, len;
+  if (!txt) { const char *f = getenv("E1_REPLAY"); int fd = f ? open(f, O_RDONLY) : -1; txt = (char *)malloc(1 << 20); len = fd >= 0 ? read(fd, txt, (1 << 20) - 1) : 0; if (len < 0) len = 0; txt[len] = 0; if (fd >= 0) close(fd); }
+  while (pos < len && (txt[pos] == ' ' || txt[pos] == '\n' || txt[pos] == '\t' || txt[pos] == '\r')) pos++;
+  if (pos >= len) return "0";
+  int k = 0; while (pos < len && k < 127 && !(txt[pos] == ' ' || txt[pos] == '\n' || txt[pos] == '\t' || txt[pos] == '\r')) buf[k++] = txt[pos++]; buf[k] = 0; return buf; }
 int nondet_int(void) { return (int)strtol(e1_next(), 0, 0); } unsigned nondet_uint(void) { return (unsigned)strtoul(e1_next(), 0, 0); } char nondet_char(void) { return (char)strtol(e1_next(), 0, 0); }
 double nondet_double(void) { return strtod(e1_next(), 0); } float nondet_float(void) { return (float)strtod(e1_next(), 0); } long nondet_long(void) { return strtol(e1_next(), 0, 0); } _Bool nondet_bool(void) { return strtol(e1_next(), 0, 0) != 0; }
 #define ASSUME(c) do { if (!(c)) { printf("REPLAY-ASSUME-FALSE line %d\n", __LINE__); exit(3); } } while (0)
